@@ -301,3 +301,10 @@ def run(chk):
     from . import forwarding as _fw
     nd_ = _fw.dead_params(chk, c, 'C04-A', lambda fi: fi.module.name in ('validation', 'factories', 'utils', '__init__', 'base_datatypes', 'mllp') or fi.module.name.endswith('.base_datatypes'))
     chk.floor('parameters examined (C04-A)', nd_, 80)
+
+    chk.rule('C04-D', 'decision structure of the functions this property is anchored in: every effect statement (store, call, return, '
+                   'raise) runs under the same combinations of the function\'s elementary tests as in the reviewed tree, and none '
+                   'was deleted (reference/decisions.json; compared by meaning, rewritten functions are not compared)')
+    from . import guardrules as _gr
+    nd2_ = _gr.check_decisions(chk, c, 'C04-D', lambda fq_: fq_.startswith(('validation.',)))
+    chk.floor('functions compared with the decision reference (C04-D)', nd2_, 1)
